@@ -47,18 +47,18 @@ CHECKS = {
    "Trusted: Earley viable-prefix oracle; abstract driver bound by conformance replays. Reduction loops of conflicting (e.g. cyclic) grammars are counted, not judged.",
    "3/C06"),
  "C07": ("model_checking",
-   "bounded exhaustive replay on compiled generated parsers: corpus grammars x union-field assignments x action shapes (also: a nested parse started from inside every action; references written with a leading zero, $010, in a rule of twelve symbols) x all strings up to the bound; returned value compared with reference attribute evaluation over the parser's own derivation-checked reductions",
+   "bounded exhaustive replay on compiled generated parsers: corpus grammars x union-field assignments x action shapes (also: a nested parse started from inside every action; references written with a leading zero, $010, in a rule of twelve symbols; the int member of the %union under 34 everyday names; a TypeScript token value that is no finite number) x all strings up to the bound; returned value compared with reference attribute evaluation over the parser's own derivation-checked reductions",
    "Harness-chosen actions make every stack slot and union field observable (token values encode character and position, rule values rule number and argument order). For every (grammar, tag assignment, action shape) and every accepted string the value returned by Parser() must equal bottom-up evaluation; Go (global packed, -o -u) and TypeScript.",
    "Trusted: combinators shared between generated code and reference (gen/rt), the derivation checker, the TypeScript type eraser. Tag assignments: all-string, all-int, each single symbol switched to int or untagged; not all 3^n assignments.",
    "3/C07"),
  "C08": ("model_checking",
-   "differential bounded exhaustive replay: every corpus grammar generated in all five variants (go, -u, -o, -o -u, typescript), compiled/loaded, all strings up to the bound run on each (also with rules that have no action block at all, with a nested parse inside every action, and with a lexer that keeps its value cell between calls and accumulates into it, yylval style); verdict class, reduction sequence and value compared pairwise and with the model run",
+   "differential bounded exhaustive replay: every corpus grammar generated in all five variants (go, -u, -o, -o -u, typescript), compiled/loaded, all strings up to the bound run on each (also with rules that have no action block at all, with a nested parse inside every action, with a lexer that keeps its value cell between calls and accumulates into it, yylval style, and with one action text `$$ = $1` shared by rules of different value tags); verdict class, reduction sequence and value compared pairwise and with the model run",
    "All variants of one grammar must agree on every input up to the bound; each run is additionally compared with the abstract LR driver over yaccgo's tables (traces_validated).",
    "Trusted: Go toolchain, Node 20, the type eraser (logs every deleted span). The embedded template strings equal the .templ files on this tree; a Makefile regeneration is not exercised.",
    "3/C08"),
  "C17": ("model_checking",
    "bounded exhaustive replay with IsTrace=true on the four Go variants: stdout lines compared, in order, with the lines predicted from the model run and the specification's rule text; number of traced reductions compared with reductions executed by the actions; where the declarations decide every table cell, the reductions executed on every input (rejected ones included) are compared with the run of the reference automaton (\"a legal run\")",
-   "Every line of every traced run (all strings up to the bound, rejected ones up to the error) must be the action actually performed: shifts and gotos with the pushed state, reductions with exact rule text, lookahead and goto state.",
+   "Every line of every traced run (all strings up to the bound, rejected ones up to the error, runs that die up to the reductions traced before) must be the action actually performed: shifts and gotos with the pushed state, reductions with exact rule text, lookahead and goto state.",
    "Trusted: abstract LR driver (bound to generated code by C01/C08 replays), whitespace-normalised comparison.",
    "3/C17"),
  "C14": ("exploration",
@@ -72,7 +72,7 @@ CHECKS = {
    "Trusted: the overlay rewriter instruments every for/range loop and function entry of the repository packages; the fuel margin. Not all byte strings: the fragment alphabet, prefixes and single edits.",
    "3/C13"),
  "C16": ("exploration",
-   "bounded exhaustive enumeration of output shapes: every printable punctuation character as literal token (declared, undeclared, with precedence), awkward-but-legal names, names with one character of each Unicode class near identifiers, white-space and non-ASCII literals, tag mixes, explicit numbers (also colliding ones: whatever yaccgo writes must compile), tokens introduced only by %left, comments and strings inside actions, several prologue blocks, plus a fixed-stride selection of the bounded grammar classes, each generated in all five variants with the minimal prologue/epilogue the statement allows; Go files compiled with the Go toolchain, TypeScript type-erased and loaded under Node",
+   "bounded exhaustive enumeration of output shapes: every printable punctuation character as literal token (declared, undeclared, with precedence), awkward-but-legal names, names with one character of each Unicode class near identifiers, long names of 2-, 3- and 4-byte letters at every byte alignment, %union members of types that cannot be compared (slice, map, func, ...), white-space and non-ASCII literals, tag mixes, explicit numbers (also colliding ones: whatever yaccgo writes must compile), tokens introduced only by %left, comments and strings inside actions, several prologue blocks, plus a fixed-stride selection of the bounded grammar classes, each generated in all five variants with the minimal prologue/epilogue the statement allows; Go files compiled with the Go toolchain, TypeScript type-erased and loaded under Node",
    "Whenever yaccgo generates a file without reporting an error the file must compile (Go: go build of all packages) or load (TypeScript under Node after type erasure).",
    "Trusted: Go toolchain, Node 20, the type eraser. TypeScript type correctness is not checked (no tsc in the image). Domain: token names that are not reserved/predeclared words nor skeleton names.",
    "3/C16"),
@@ -93,7 +93,7 @@ CHECKS = {
    "3/C18"),
  "C19": ("fault_enumeration",
    "exhaustive fault enumeration over corpus grammar files: every byte prefix, every single-token deletion/duplication/replacement by each fragment of a 38-piece lexical alphabet, and semantic faults derived from the specification (undefined symbol at every right-hand-side position, each nonterminal made unproductive, %prec/%left of undeclared tokens, $n out of range in each action, %type of a ruleless name, missing %start) x {go, -u, -o, typescript}, with the output path pre-filled with sentinel bytes (and, for successful generations, with a file of exactly the new size but other content, a 10-byte file and the output itself); in-process for the whole space and through the real CLI (exit status, bytes, inode) for a fixed stride",
-   "Every input-caused failure explored leaves the existing output file byte-identical (same inode); every success leaves a complete file ending with the program section and containing a case for every rule, the same bytes whatever the path held before.",
+   "Every input-caused failure explored leaves the existing output file byte-identical (same inode; every second command-line run over a write-protected file); every success leaves a complete file ending with the program section and containing a case for every rule, the same bytes whatever the path held before.",
    "Failure = error return or panic of the generator. Non-terminating inputs are excluded here (C13). Faults attributable to the environment (unwritable path, full disk) are outside the statement.",
    "3/C19"),
  "C15": ("model_checking",
